@@ -6,6 +6,7 @@ import Drv.C17
 import Drv.C20
 import Drv.Core
 import Drv.DramMon
+import Drv.Phy
 open DrvUtil
 
 def main (args : List String) : IO UInt32 := do
@@ -18,6 +19,7 @@ def main (args : List String) : IO UInt32 := do
   | ["c20exp5"] => mapLines i o drvC20exp5; return 0
   | ["c20path4"] => foldLines i o none drvC20path4; return 0
   | ["c20stream4"] => foldLines i o none drvC20stream4; return 0
+  | ["phy"] => foldLines i o none drvPhy; return 0
   | ["drammon"] => foldLines i o none drvDramMon; return 0
   | ["controller"] => foldLines i o none drvController; return 0
   | ["refresher"] => foldLines i o none drvRefresher; return 0
